@@ -38,7 +38,7 @@ def enumerate_cases(tier, seed):
 
     from mc import grammar as g
 
-    cases = [c for c in c01.enumerate_cases(tier, seed) if not c.get("inverter")]  # the configured-inverter leg is C01's own
+    cases = [c for c in c01.enumerate_cases(tier, seed) if not c.get("inverter") and not (c.get("spec") or {}).get("w0")]  # the configured-inverter leg is C01's own; w0 states are added below
     # planar layers whose weight vector is EXACTLY zero (a zero-initialised or pruned layer, a conditioner whose last layer is zero):
     # the map is a pure translation, log-det 0; identities such as w.u-hat = m(w.u) hold only for w != 0
     for s in ({"k": "Planar", "dim": 2, "cond": None, "slope": None, "w0": True}, {"k": "Planar", "dim": 2, "cond": None, "slope": 0.1, "w0": True},
